@@ -135,7 +135,7 @@ def run(ctx, prog):
         if not apps(url[0].args[0], r'from_utf8$'):
             return 'legacy data not base64-decoded first'
         return None
-    A.require('deserialize/pipeline-base64url-zlib-roaring-with-legacy-unwrapping', okp, r_des, replay=R('[roundtrip]'))
+    A.require('deserialize/pipeline-base64url-zlib-roaring-with-legacy-unwrapping', okp, r_des, replay=[R('[roundtrip]'), R('[legacy]')])
 
     f = prog.one(IMPL + r'serialize_compressed_base64$')
     paths, ex = A.paths(f, inline=IMPL + r'serialize_compressed_base64::\{closure')
@@ -414,12 +414,49 @@ def run(ctx, prog):
     A.require('check_revocation_bitmap_status/revoked-iff-member', paths, r_st, replay=R('[document]'))
 
 
+def iota_wrappers(ctx):
+    """IotaDocument::revoke_credentials / unrevoke_credentials hand their two arguments to the core document's operation on every path and
+    return its outcome: no pre-check, no early return (a wrapper that decides for itself whether the call 'changes anything' drops batches)."""
+    prog, info = load(['identity_iota_core'])
+    A = Auditor(ctx, prog)
+    for nm in ('revoke_credentials', 'unrevoke_credentials'):
+        f = prog.one(r'<impl at [^>]*iota_document\.rs[^>]*>::%s$' % nm)
+        paths, ex = A.paths(f, same_file=False)
+
+        def r_w(p, nm=nm):
+            if p.kind != 'return':
+                return 'panic ' + p.msg
+            cs = [c for c in p.calls if re.search(r'RevocationDocumentExt>::%s$|CoreDocument.*::%s$' % (nm, nm), c.name)]
+            if len(cs) != 1:
+                return 'the wrapper does not perform the core operation exactly once on this path'
+            c = cs[0]
+            if not (apps(c.args[0], r'core_document_mut$') and mentions(c.args[0], r'^self$')):
+                return 'the operation is not applied to this document\'s core document'
+            if strip(c.args[1]) != ('leaf', 'service_query') or strip(c.args[2]) != ('leaf', 'indices'):
+                return 'service query / indices are not handed over as given'
+            other = [x for x in p.calls if not x.inlined and re.search(r'is_revoked|resolve_revocation_bitmap|Iterator>::(all|any|filter)$|contains', x.name)]
+            if other:
+                return 'the wrapper examines the bitmap itself'
+            if p.took(c, 'Ok'):
+                return None if p.is_ok() else 'a successful core operation is reported as an error'
+            if p.took(c, 'Err'):
+                return None if p.is_err() else 'a failed core operation is reported as success'
+            t = p.term()
+            return None if is_sub_c06(t, c.ret) else 'outcome of the core operation not returned'
+        A.require('IotaDocument::%s/forwards-to-the-core-document-on-every-path' % nm, paths, r_w, replay=R('[iota-wrapper]'))
+
+
+def is_sub_c06(t, want):
+    return any(x == want for x in subterms(t))
+
+
 def main(ctx):
     prog, info = load(CRATES, src_only=SRC)
     ctx.extra['mir'] = info
     ctx.outside += ['roaring serialisation and set semantics (third-party)', 'zlib', 'base64 codec', 'sets as such: the solver decides the format detector and the wiring, not 10^5-element round trips']
     guarded(ctx, 'legacy-format detector', 'M', lambda: detector(ctx, prog))
     guarded(ctx, 'endpoint / document audit', 'M', lambda: run(ctx, prog))
+    guarded(ctx, 'IotaDocument wrappers', 'M', lambda: iota_wrappers(ctx))
     # "reported revoked by validation exactly when its index is a member" also needs the status unit to reach the bitmap check: a
     # RevocationBitmap2022 status is skipped only as configured, and one that does not convert is an error (C02's obligation, re-used)
     import c02
